@@ -7,6 +7,8 @@ with an independent reference (zero mean, requested scale statistic, zero-scale 
 """
 import numpy as np
 
+from vf.tx import amax as _amax
+
 from vf.core import Workload
 from vf import taps, gen
 from vf.digest import digest, diff, writeable_flags
@@ -109,7 +111,7 @@ class FeatureMonitor(taps.Monitor):
             else:
                 e = float(np.abs(a - r.pixels).max()) if a.size else 0.0
                 ctx.err("array_vs_image:" + f, e)
-                if e > 1e-12 * max(1.0, float(np.abs(a).max()) if a.size else 1.0):
+                if not (e <= 1e-12 * max(1.0, float(np.abs(a).max()) if a.size else 1.0)):
                     ctx.fail("feature_values_differ_between_array_and_image", cls=f, mech=cls + ":" + mkind, err=e)
         # annotations
         old_shape, new_shape = np.array(x.shape), np.array(r.shape)
@@ -131,7 +133,7 @@ class FeatureMonitor(taps.Monitor):
                         ctx.fail("feature_changed_a_landmark_class", cls=f)
                         break
                     exp = o.points * (new_shape / old_shape)
-                    if np.abs(n.points - exp).max() > 1e-9 * max(1.0, np.abs(exp).max()):
+                    if _amax(n.points - exp) > 1e-9 * max(1.0, np.abs(exp).max()):
                         ctx.fail("landmarks_not_rescaled_to_the_new_size", cls=f, mech=cls, old_shape=old_shape, new_shape=new_shape)
                         break
         if masked and isinstance(r, mi.MaskedImage):
@@ -250,6 +252,14 @@ def w_normalisers(ctx, rng, i):
     dtype = [np.float64, np.float32][rng.integers(0, 2) if rng.random() < 0.3 else 0]
     shp = (int(rng.integers(2, 30)), int(rng.integers(2, 30)))
     im = make_image(rng, "MaskedImage" if cls == "MaskedImage" else "Image", shp, C, dtype, mk, constant=const)
+    faint = None
+    if dtype == np.float64 and const is None and rng.random() < 0.5:
+        # any overall intensity: faint (1e-6) to very bright (1e4) images, or one faint channel next to ordinary ones
+        faint = 10.0 ** rng.uniform(-6, 4)
+        if rng.random() < 0.5 or C == 1:
+            im.pixels *= faint
+        else:
+            im.pixels[rng.integers(0, C)] *= 10.0 ** rng.uniform(-6, -3)
     x = im.pixels if cls == "array" else im
     f = getattr(mf, fname)
     kwargs = {"mode": mode, "error_on_divide_by_zero": err}
@@ -306,15 +316,15 @@ def w_normalisers(ctx, rng, i):
             scale = max(1.0, float(np.abs(exp).max()))
             e = float(np.abs(o - exp).max())
             ctx.err("normaliser_vs_reference:" + np.dtype(dtype).name, e / scale)
-            if e > tol * scale:
+            if not (e <= tol * scale):
                 ctx.fail("normalised_values_differ_from_zero_mean_over_scale", cls=key, mech=("zero_scale_skipped" if zero.any() else "regular"), err=e)
             # idempotence for std / norm
             if fname in ("normalize_std", "normalize_norm") and not zero.any():
                 again = f(r, **kwargs)
                 a = np.asarray(again if cls == "array" else again.pixels)
-                if np.abs(a - out).max() > max(tol, 1e-7) * scale * 10:
+                if _amax(a - out) > max(tol, 1e-7) * scale * 10:
                     ctx.fail("second_application_changes_the_result", cls=key)
-    ctx.count_case(("normaliser", fname, mode, cls, const, err, np.dtype(dtype).name), nontrivial=True,
+    ctx.count_case(("normaliser", fname, mode, cls, const, err, np.dtype(dtype).name, faint is not None), nontrivial=True,
                    sample={"feature": fname, "mode": mode, "input": cls, "constant": const, "error_on_divide_by_zero": err} if i < 6 else None)
 
 
